@@ -8,6 +8,11 @@ NOT_APPLICABLE = {
     'C03': 'C++ exception capture/transport/rethrow: CBMC\'s usable front end here is C, extraction drops try/catch, so no contract can mention the behaviour (DESIGN.md §6)',
 }
 CLAIMS = {
+    'C10': {
+        'technique': 'CBMC loop-free / width-bounded-unwinding harnesses on the segment, mask and parent arithmetic sliced from concurrent_hash_map.h',
+        'text': 'For all 2^64 bucket indices the bucket->(segment,offset) map is a bijection onto tiling segments and get_bucket lands inside the segment allocation; for every hash and every pair of masks m_old < m, check_rehashing_collision examines exactly the bucket the key occupied at the first table size where it left its old bucket and reports a collision iff that bucket is already rehashed; the parent of bucket h is h with its top bit cleared (smaller index), its mask the parent mask extended by one bit.',
+        'note': 'Trusted: rehash_required/bucket contents as a recording stub, bucket and element locks are spin_rw_mutex (C08). Not decided: every interleaving fact of lookup/insert/erase, accessor lifetime, rehash_bucket list surgery, growth protocol.',
+    },
     'C09': {
         'technique': 'CBMC loop-free full-domain harnesses on the ticket arithmetic + rely/guarantee proofs (monotone counters, Skolem claim of another thread) with dfcc loop contracts on the ticket-claim loops sliced from concurrent_queue.h',
         'text': 'For all 2^64 tickets: 8 consecutive tickets go to 8 different lanes, k and k+8 meet in the same lane in consecutive slots, (lane, turn) determines the ticket, slot < items_per_page <= 32. For any number of threads under SC: pop tickets are unique and only taken while tail - ticket > 0; empty is reported only from an instant with no item; bounded push tickets are unique and only taken while size < capacity; full is reported only from an instant with size() >= capacity (negative sizes are never full).',
